@@ -20,9 +20,9 @@ RULE = (
     "kinds in the history, same-content-added-twice?, deleted an added file?, pretty, cycle)."
 )
 SHARDS = {"quick": 16, "thorough": 16}
-TIMEOUT = {"quick": 400, "thorough": 3600}
+TIMEOUT = {"quick": 400, "thorough": 7200}
 MIN_EVALS = {"quick": 1500, "thorough": 40000}
-CASES = {"quick": 80, "thorough": 2500}
+CASES = {"quick": 80, "thorough": 20000}
 ASSUMPTIONS = [
     "a manifest entry for a directory ('Pictures/', 'Configurations2/') is satisfied by any member below it; zip directory entries need not be listed (LibreOffice practice, present in all templates)",
     "raw Document.set_part of a new binary path without a manifest entry is the caller's responsibility and is generated together with manifest.add_full_path",
